@@ -1054,7 +1054,7 @@ fn check_c13_scanner(with: &[u8], flen: usize, what: &str) -> Result<(), Violati
     match r {
         Ok((c, a, g, ic)) => {
             if c != flen || a != want || g != want || ic != flen {
-                return Err(Violation::new(
+                return Err::<(), Violation>(Violation::new(
                     "C13",
                     "C13.d",
                     format!(
@@ -1075,8 +1075,42 @@ fn check_c13_scanner(with: &[u8], flen: usize, what: &str) -> Result<(), Violati
             }
             Ok(())
         }
-        Err(e) => Err(Violation::new("C13", "C13.d", format!("{}: scanner panicked on a valid frame followed by {} bytes: {}", what, with.len() - flen, panic_text(&e)))),
+        Err(e) => return Err(Violation::new("C13", "C13.d", format!("{}: scanner panicked on a valid frame followed by {} bytes: {}", what, with.len() - flen, panic_text(&e)))),
+    }?;
+    // the same bytes in a receive buffer that is reused in place: first a frame-less content of
+    // the same length is scanned at this address, then the buffer is overwritten with frame +
+    // suffix and scanned again (the answer must not depend on what this address held before)
+    if with.len() <= 4096 {
+        let r2 = catch_unwind(AssertUnwindSafe(|| {
+            let mut scratch = vec![0u8; with.len()];
+            let first = next_msg_frame(&scratch).0;
+            scratch.copy_from_slice(with);
+            let (c, f) = next_msg_frame(&scratch);
+            let a = f.map(|f| ((f.frame_data().as_ptr() as usize).wrapping_sub(scratch.as_ptr() as usize), f.frame_len(), f.message_number(), f.crc(), f.data_len()));
+            (first, c, a)
+        }));
+        match r2 {
+            Ok((_first, c, a)) => {
+                if c != flen || a != want {
+                    return Err(Violation::new(
+                        "C13",
+                        "C13.d",
+                        format!(
+                            "{}: valid frame of {} bytes followed by {} bytes, written into a buffer that was scanned before with other contents of the same length: scanner returned consumed={} frame={:?}; the frame's own bytes say {:?}",
+                            what,
+                            flen,
+                            with.len() - flen,
+                            c,
+                            a,
+                            want
+                        ),
+                    ));
+                }
+            }
+            Err(e) => return Err(Violation::new("C13", "C13.d", format!("{}: scanner panicked on a reused buffer: {}", what, panic_text(&e)))),
+        }
     }
+    Ok(())
 }
 
 fn judge_c13(trace: &StreamTrace, mut stats: Option<&mut Stats>) -> Option<Violation> {
